@@ -16,6 +16,8 @@
 #include "cplx/cplx_fft_internal.h"
 #include "cplx/cplx_fft_private.h"
 #include "q120/q120_ntt_private.h"
+#include "q120/q120_arithmetic.h"
+#include "q120/q120_arithmetic_private.h"
 #include "reim/reim_fft_internal.h"
 #include "reim/reim_fft_private.h"
 #include "reim4/reim4_fftvec_internal.h"
@@ -172,6 +174,31 @@ int main(int argc, char** argv) {
   }
   printf("/* generated by tools/dump_tables.c from the working tree - do not edit */\n#ifndef VF_TABLES_H\n#define VF_TABLES_H\n#include <stdint.h>\n#include \"q120/q120_ntt_private.h\"\n");
   printf("#define VFT_Q1 UINT64_C(%u)\n#define VFT_Q2 UINT64_C(%u)\n#define VFT_Q3 UINT64_C(%u)\n#define VFT_Q4 UINT64_C(%u)\n", Q1, Q2, Q3, Q4);
+  {
+    /* product precomputations (h selection uses libm log2/pow): dumped, then re-validated by the range obligations */
+    q120_mat1col_product_baa_precomp* a = q120_new_vec_mat1col_product_baa_precomp();
+    q120_mat1col_product_bbb_precomp* b = q120_new_vec_mat1col_product_bbb_precomp();
+    q120_mat1col_product_bbc_precomp* c = q120_new_vec_mat1col_product_bbc_precomp();
+    printf("#define VFT_BAA_INIT {UINT64_C(%" PRIu64 "),{", a->h);
+    for (int k = 0; k < 4; ++k) printf("%sUINT64_C(%" PRIu64 ")", k ? "," : "", a->h_pow_red[k]);
+    printf("}}\n");
+    printf("#define VFT_BBB_INIT {UINT64_C(%" PRIu64 ")", b->h);
+    uint64_t* tabs[7] = {b->s1h_pow_red, b->s2l_pow_red, b->s2h_pow_red, b->s3l_pow_red, b->s3h_pow_red, b->s4l_pow_red, b->s4h_pow_red};
+    for (int t = 0; t < 7; ++t) {
+      printf(",{");
+      for (int k = 0; k < 4; ++k) printf("%sUINT64_C(%" PRIu64 ")", k ? "," : "", tabs[t][k]);
+      printf("}");
+    }
+    printf("}\n");
+    printf("#define VFT_BBC_INIT {UINT64_C(%" PRIu64 "),{", c->h);
+    for (int k = 0; k < 4; ++k) printf("%sUINT64_C(%" PRIu64 ")", k ? "," : "", c->s2l_pow_red[k]);
+    printf("},{");
+    for (int k = 0; k < 4; ++k) printf("%sUINT64_C(%" PRIu64 ")", k ? "," : "", c->s2h_pow_red[k]);
+    printf("}}\n");
+    q120_delete_vec_mat1col_product_baa_precomp(a);
+    q120_delete_vec_mat1col_product_bbb_precomp(b);
+    q120_delete_vec_mat1col_product_bbc_precomp(c);
+  }
   for (int i = 0; i < nm; ++i) dump_m((uint32_t)ms[i]);
   vf_cpu_avx = 1;
   for (int i = 0; i < nn; ++i) {
